@@ -22,11 +22,19 @@ type replyResult struct {
 // "send on closed channel" panic class structurally unreachable.
 type replyRegistry struct {
 	m *xsync.MapOf[[4]byte, chan replyResult]
+	// data marks the keys whose waiting sender is a DATA transaction (registerData). A control
+	// response (Select/Deselect/Linktest.rsp) can only ever answer a control request, so RouteReply
+	// consults awaitsData to keep one that merely reuses a data transaction's System Bytes from being
+	// handed to the data sender as its "reply".
+	data *xsync.MapOf[[4]byte, struct{}]
 }
 
 // newReplyRegistry returns an initialised replyRegistry ready for use.
 func newReplyRegistry() replyRegistry {
-	return replyRegistry{m: xsync.NewMapOf[[4]byte, chan replyResult]()}
+	return replyRegistry{
+		m:    xsync.NewMapOf[[4]byte, chan replyResult](),
+		data: xsync.NewMapOf[[4]byte, struct{}](),
+	}
 }
 
 // register allocates a buffered reply channel for key, stores it, and returns
@@ -39,10 +47,27 @@ func (r replyRegistry) register(key [4]byte) chan replyResult {
 	return ch
 }
 
+// registerData is register for a DATA transaction: it additionally marks key as awaiting a data
+// reply (see awaitsData). The mark is stored before the channel so a concurrent route that finds the
+// channel also finds the mark.
+func (r replyRegistry) registerData(key [4]byte) chan replyResult {
+	r.data.Store(key, struct{}{})
+
+	return r.register(key)
+}
+
+// awaitsData reports whether the sender currently registered under key is a data transaction.
+func (r replyRegistry) awaitsData(key [4]byte) bool {
+	_, ok := r.data.Load(key)
+
+	return ok
+}
+
 // deregister removes the channel associated with key from the registry.
 // Called by the sender as a deferred cleanup — the channel is NOT closed here.
 func (r replyRegistry) deregister(key [4]byte) {
 	r.m.Delete(key)
+	r.data.Delete(key)
 }
 
 // route delivers res to the waiting sender for key using a non-blocking send.
